@@ -36,6 +36,7 @@ struct TrustSim {
 	std::vector<uint64_t> states;
 	bool nontrivial = false;
 	int file_kind_in_effect = F_HONEST;
+	uint64_t last_state = 0;
 	explicit TrustSim(const run::Plan &p) : plan(p) {}
 
 	std::string pubfile_of(int kind) {
@@ -180,6 +181,7 @@ struct TrustSim {
 		bw.disarm();
 		int rc = pr ? (int)pr->finalResult.resultCode : -1, ec = pr ? (int)pr->finalResult.errorCode : -1;
 		K.ev("VERIFY kind=%d policy=%d userpub=%d ext=%d behav=%s fault=%d file=%d -> res=0x%x rc=%d ec=0x%x", s.kind, policy, upk, ext_allowed, behav_name(e.behav), e.fault, fkind, res, rc, ec);
+		last_state = mix(mix(mix((uint64_t)s.kind * 8 + (uint64_t)policy, (uint64_t)upk * 2 + (uint64_t)ext_allowed), mix((uint64_t)e.behav * 4 + (uint64_t)e.fault, (uint64_t)file_kind_in_effect)), mix((uint64_t)(rc + 1), (uint64_t)(ec + 1)));
 		K.count(rc == 0 ? "outcome.verify_ok" : rc == 1 ? "outcome.verify_na" : rc == 2 ? "outcome.verify_fail" : "outcome.verify_error");
 		if (e.behav != B_HONEST || e.fault || fkind != F_HONEST || upk >= 3) nontrivial = true;
 		if (bw.pub_fetches > fetch0) file_kind_in_effect = fkind;
@@ -268,7 +270,7 @@ struct TrustSim {
 			const run::Op &op = plan.ops[i];
 			if (op.k == "VERIFY") op_verify(op);
 			else if (op.k == "TICK") { K.advance(std::max<int64_t>(1, op.arg(0))); K.ev("TICK %lld", (long long)op.arg(0)); }
-			states.push_back(mix(i, K.violations.size()));
+			states.push_back(last_state);
 		}
 		for (auto &s : sigs) if (s.sig) KSI_Signature_free(s.sig);
 		if (ctx) KSI_CTX_free(ctx);
@@ -303,6 +305,7 @@ struct TrustEngine : run::Engine {
 	}
 	run::RunResult execute(const run::Plan &p, bool trace) override { TrustSim s(p); return s.run(trace); }
 	std::map<std::string, int64_t> neutral_cfg() const override { return {{"aggr_http", 0}, {"ext_http", 0}, {"loglevel", 0}, {"epoch_ms", 0}, {"ttl", 0}}; }
+	std::string state_measure() const override { return "(signature kind, policy, user publication kind, extending allowed, extender behaviour, transport fault, publications file in effect, verdict, error code) of every verification"; }
 	std::string nontrivial_rule() const override { return "a run is non-trivial when at least one verification met an adversarial extender behaviour, a transport fault, a deviating publications file or a contradicting / unusable user publication; distinct = distinct event-log hash"; }
 };
 
